@@ -26,14 +26,101 @@ fn battery_consensus() -> &'static Consensus {
     C.get_or_init(|| ConsensusBuilder::default().build())
 }
 
+/// the indexes a peer can aim at a vector of `len` items: both ends, one and two past the end, the largest u32
+fn boundary_indexes(len: usize) -> Vec<usize> {
+    let mut v = vec![0, len.wrapping_sub(1), len, len + 1, u32::MAX as usize];
+    v.retain(|i| *i != usize::MAX);
+    v.dedup();
+    v
+}
+
+/// every index-taking accessor must answer Some inside and None outside the vector, never panic
+fn probe<T>(what: &str, len: usize, get: impl Fn(usize) -> Option<T>) {
+    for i in boundary_indexes(len) {
+        let got = get(i).is_some();
+        assert_eq!(got, i < len, "{what}: index {i} of {len} answered {got}");
+    }
+}
+
+fn tx_index_probes(v: &TransactionView) {
+    let raw = v.data().raw();
+    probe("TransactionView::output", raw.outputs().len(), |i| v.output(i));
+    probe("CellOutputVec::get", raw.outputs().len(), |i| raw.outputs().get(i));
+    probe("BytesVec::get(outputs_data)", raw.outputs_data().len(), |i| raw.outputs_data().get(i));
+    probe("CellInputVec::get", raw.inputs().len(), |i| raw.inputs().get(i));
+    probe("CellDepVec::get", raw.cell_deps().len(), |i| raw.cell_deps().get(i));
+    probe("Byte32Vec::get(header_deps)", raw.header_deps().len(), |i| raw.header_deps().get(i));
+    probe("BytesVec::get(witnesses)", v.data().witnesses().len(), |i| v.data().witnesses().get(i));
+    if raw.outputs().len() == raw.outputs_data().len() {
+        // (a transaction whose outputs and outputs_data differ in length is refused by the non-contextual verifier)
+        probe("TransactionView::output_with_data", raw.outputs().len(), |i| v.output_with_data(i));
+    }
+    assert_eq!(v.output_pts().len(), raw.outputs().len());
+    assert_eq!(v.outputs_with_data_iter().count(), raw.outputs().len().min(raw.outputs_data().len()));
+}
+
+/// what GetBlockTransactionsProcess / block queries do with peer-chosen indexes on a block view
+fn block_index_probes(v: &BlockView) {
+    let d = v.data();
+    let (nt, nu, np) = (d.transactions().len(), d.uncles().len(), d.proposals().len());
+    probe("BlockView::transaction", nt, |i| v.transaction(i));
+    probe("BlockView::transactions().get (GetBlockTransactionsProcess)", nt, |i| v.transactions().get(i).cloned());
+    probe("BlockView::uncles().get (GetBlockTransactionsProcess)", nu, |i| v.uncles().get(i));
+    probe("TransactionVec::get", nt, |i| d.transactions().get(i));
+    probe("UncleBlockVec::get", nu, |i| d.uncles().get(i));
+    probe("ProposalShortIdVec::get", np, |i| d.proposals().get(i));
+    probe("Byte32Vec::get(uncle_hashes)", nu, |i| v.uncle_hashes().get(i));
+    probe("tx_hashes", nt, |i| v.tx_hashes().get(i).cloned());
+    probe("tx_witness_hashes", nt, |i| v.tx_witness_hashes().get(i).cloned());
+    for ti in boundary_indexes(nt) {
+        let outs = d.transactions().get(ti).map(|t| t.raw().outputs().len()).unwrap_or(0);
+        for oi in boundary_indexes(outs) {
+            assert_eq!(v.output(ti, oi).is_some(), ti < nt && oi < outs, "BlockView::output({ti}, {oi})");
+        }
+    }
+    assert_eq!(v.uncles().into_iter().count(), nu);
+    for u in d.uncles().into_iter() {
+        probe("UncleBlock.proposals().get", u.proposals().len(), |i| u.proposals().get(i));
+    }
+    for t in v.transactions() {
+        tx_index_probes(&t);
+    }
+}
+
+/// the expressions of GetBlockTransactionsProcess::execute evaluated with the indexes of an accepted message on a stored block
+fn get_block_transactions_battery(msg: packed::GetBlockTransactions) {
+    static B: OnceLock<BlockView> = OnceLock::new();
+    let block = B.get_or_init(|| {
+        let tx = |n: u32| TransactionBuilder::default().version(n).output(CellOutput::new_builder().build()).output_data(Bytes::new()).build();
+        let uncle = BlockBuilder::default().timestamp(7u64).build();
+        BlockBuilder::default().transactions(vec![tx(1), tx(2)]).uncle(uncle.as_uncle()).proposal(ProposalShortId::new([3u8; 10])).build()
+    });
+    let mut idx: Vec<usize> = msg.indexes().into_iter().map(|i| Into::<u32>::into(i) as usize).collect();
+    let mut uidx: Vec<usize> = msg.uncle_indexes().into_iter().map(|i| Into::<u32>::into(i) as usize).collect();
+    idx.extend(boundary_indexes(block.transactions().len()));
+    uidx.extend(boundary_indexes(block.data().uncles().len()));
+    let txs: Vec<_> = idx.iter().filter_map(|i| block.transactions().get(*i).cloned()).collect();
+    let uncles: Vec<_> = uidx.iter().filter_map(|i| block.uncles().get(*i)).collect();
+    assert!(txs.len() <= idx.len() && uncles.len() <= uidx.len());
+    let _ = packed::BlockTransactions::new_builder()
+        .block_hash(msg.block_hash())
+        .transactions(txs.into_iter().map(|t| t.data()).collect::<Vec<_>>())
+        .uncles(uncles.into_iter().map(|u| u.data()).collect::<Vec<_>>())
+        .build();
+    block_index_probes(block);
+}
+
 fn tx_battery(tx: packed::Transaction) {
     let _ = (tx.calc_tx_hash(), tx.calc_witness_hash(), tx.is_cellbase(), tx.proposal_short_id(), tx.serialized_size_in_block());
     let v = tx.into_view();
     let _ = (v.hash(), v.witness_hash(), v.outputs_capacity(), v.output_pts(), v.unique_parents(), v.is_cellbase());
     let _ = v.outputs_with_data_iter().count();
-    for i in 0..v.outputs().len() {
-        let _ = v.output_with_data(i);
+    if v.outputs().len() == v.outputs_data().len() {
+        for i in 0..v.outputs().len() {
+            let _ = v.output_with_data(i);
+        }
     }
+    tx_index_probes(&v);
     let _ = NonContextualTransactionVerifier::new(&v, battery_consensus()).verify();
 }
 
@@ -60,6 +147,8 @@ fn block_battery(b: packed::Block) {
     for t in v.transactions() {
         tx_battery(t.data());
     }
+    block_index_probes(&v);
+    block_index_probes(&w);
     let _ = BlockVerifier::new(battery_consensus()).verify(&v);
 }
 
@@ -151,11 +240,13 @@ pub fn deep_battery(ty: &str, buf: &[u8], compat: bool) {
                         packed::RelayMessageUnionReader::RelayTransactions(x) => x.to_entity().transactions().into_iter().for_each(|rt| tx_battery(rt.transaction())),
                         packed::RelayMessageUnionReader::BlockTransactions(x) => x.to_entity().transactions().into_iter().for_each(tx_battery),
                         packed::RelayMessageUnionReader::BlockProposal(x) => x.to_entity().transactions().into_iter().for_each(tx_battery),
+                        packed::RelayMessageUnionReader::GetBlockTransactions(x) => get_block_transactions_battery(x.to_entity()),
                         _ => {}
                     }
                 }
             }
         }
+        "GetBlockTransactions" => get_block_transactions_battery(ent!(GetBlockTransactions)),
         "Alert" => {
             let a = ent!(Alert);
             let _ = a.calc_alert_hash();
